@@ -32,6 +32,9 @@ pub struct SimCase {
     pub fracs: [f64; 4],
     pub seed: u64,
     pub use_sim_fn: bool,
+    /// 0 = no integration; otherwise both sides get an integration whose only non-zero delay is this
+    /// constant trigger delay (used by the internal-timer check only: timers ignore the trigger delay)
+    pub trigger_delay_us: u64,
 }
 
 impl SimCase {
@@ -76,6 +79,18 @@ impl SimCase {
         a.max_padding_frac_server = self.fracs[2];
         a.max_blocking_frac_server = self.fracs[3];
         a.insecure_rng_seed = Some(self.seed);
+        if self.trigger_delay_us > 0 {
+            use maybenot_simulator::integration::{BinDist, Integration};
+            let zero = || BinDist::new(r#"{"(0.0, 0.0)": 1.0}"#).unwrap();
+            let ms = self.trigger_delay_us as f64 / 1000.0;
+            let integ = Integration {
+                action_delay: zero(),
+                reporting_delay: zero(),
+                trigger_delay: BinDist::new(&format!(r#"{{"({ms:?}, {ms:?})": 1.0}}"#)).unwrap(),
+            };
+            a.client_integration = Some(integ.clone());
+            a.server_integration = Some(integ);
+        }
         a
     }
     /// offset (ns, relative to the earliest base event) at which each trace line is injected:
@@ -104,6 +119,7 @@ impl SimCase {
             "fractions_client_pad_block_server_pad_block": self.fracs,
             "insecure_rng_seed": self.seed,
             "entry_point": if self.use_sim_fn { "sim" } else { "sim_advanced" },
+            "integration_trigger_delay_us": self.trigger_delay_us,
         })
     }
 }
@@ -225,6 +241,7 @@ pub fn gen_case(r: &mut Xo, max_lines: usize, tune: &dyn Fn(&mut Xo, &mut MCfg))
             _ => rand_core::RngCore::next_u64(r),
         },
         use_sim_fn: false,
+        trigger_delay_us: 0,
     }
 }
 
